@@ -2,12 +2,58 @@ package main
 
 import (
 	"go/ast"
+	"go/constant"
 	"go/printer"
 	"go/token"
+	"go/types"
 	"io"
 )
 
 func printerFprint(w io.Writer, fset *token.FileSet, n ast.Node) {
 	cfg := printer.Config{Mode: printer.RawFormat}
 	cfg.Fprint(w, fset, n)
+}
+
+// constStringArg reports whether e is a constant string expression with the given value.
+func constStringArg(info *types.Info, e ast.Expr, want string) bool {
+	tv, ok := info.Types[e]
+	return ok && tv.Value != nil && tv.Value.Kind() == constant.String && constant.StringVal(tv.Value) == want
+}
+
+// findDoublingReplace returns a call strings.ReplaceAll(x, q, q+q) inside n (q a one-character quote), or nil.
+func findDoublingReplace(info *types.Info, n ast.Node, quote string) *ast.CallExpr {
+	var found *ast.CallExpr
+	ast.Inspect(n, func(m ast.Node) bool {
+		call, ok := m.(*ast.CallExpr)
+		if !ok || found != nil || len(call.Args) != 3 {
+			return true
+		}
+		if fn := calleeOf(info, call); fn != nil && funcFullName(fn) == "strings.ReplaceAll" &&
+			constStringArg(info, call.Args[1], quote) && constStringArg(info, call.Args[2], quote+quote) {
+			found = call
+		}
+		return true
+	})
+	return found
+}
+
+// comparesWithField returns the position of a comparison `x <op> y` inside n in which one operand is a selection of
+// the given struct field (by object, not by name of the base variable).
+func comparesWithField(info *types.Info, n ast.Node, field *types.Var, op token.Token) token.Pos {
+	pos := token.NoPos
+	ast.Inspect(n, func(m ast.Node) bool {
+		be, ok := m.(*ast.BinaryExpr)
+		if !ok || be.Op != op || pos != token.NoPos {
+			return true
+		}
+		for _, side := range []ast.Expr{be.X, be.Y} {
+			if sel, ok := ast.Unparen(side).(*ast.SelectorExpr); ok {
+				if s := info.Selections[sel]; s != nil && s.Obj() == field {
+					pos = be.Pos()
+				}
+			}
+		}
+		return true
+	})
+	return pos
 }
